@@ -315,9 +315,12 @@ class PteraTransformer(NodeTransformer):
     def _set(self, name):
         return ast.Name(id=self.lib[name][0], ctx=ast.Store())
 
-    def _interact(self, *args):
+    def _interact(self, *args, fullname=None):
         varname, key, ann, value, overridable = args
-        if not self.should_instrument(varname, ann):
+        if not self.should_instrument(varname, ann) and not (
+            # x.attr = ... is also selectable as "x.attr"
+            fullname and self.should_instrument(fullname, ann)
+        ):
             return value if isinstance(value, ast.AST) else ast.Constant(value)
 
         args = [
@@ -406,6 +409,7 @@ class PteraTransformer(NodeTransformer):
         ann_arg = ann if ann else ast.Constant(value=None)
         value_arg = self._get("ABSENT") if value is None else value
         prelude = []
+        fullname = None
         if isinstance(target, ast.Name):
             value_args = [
                 target.id,
@@ -450,6 +454,7 @@ class PteraTransformer(NodeTransformer):
         elif isinstance(target, ast.Attribute) and isinstance(
             target.value, ast.Name
         ):
+            fullname = f"{target.value.id}.{target.attr}"
             value_args = [
                 target.value.id,
                 self._wrap_call("__ptera_Key", "attr", target.attr),
@@ -472,7 +477,7 @@ class PteraTransformer(NodeTransformer):
         if value_args is None:
             new_value = value
         else:
-            new_value = self._interact(*value_args)
+            new_value = self._interact(*value_args, fullname=fullname)
         if isinstance(target, str):
             assert not expression
             return [ast.Expr(new_value)]
